@@ -2,9 +2,9 @@ import CogentModel.Props.C17
 import CogentModel.Proofs.AnnotDbX
 /-! # C17 (extension) — rows without a location, alignment features, GenBank record loading
 
-`featuresTables`, `recordsTables`, `subsetStart`, `subsetStop`, `attrWrapRecords`, `attrWrapCount`,
+`featuresTables`, `recordsTables`, `countTables`, `featuresKeepOa`, `recordsKeepOa`, `countKeepOa`, `subsetStart`, `subsetStop`, `attrWrapRecords`, `attrWrapCount`,
 `childSkip`, `parentSkip` are **generated** from the current source of `core/annotation_db.py`
-(`Gen/C17Query.lean`, `translator/c17_query2lean.py`); the first five theorems re-prove on every run
+(`Gen/C17Query.lean`, `translator/c17_query2lean.py`); the first six theorems re-prove on every run
 that they mean what the hand model and the spec say, for all arguments. -/
 namespace CogentModel.C17X
 open CogentModel.AnnotDb CogentModel.AnnotDbSpec CogentModel.Gen.C17Sql CogentModel.Gen.C17Query CogentModel.C17
@@ -12,12 +12,38 @@ open CogentModel.AnnotDb CogentModel.AnnotDbSpec CogentModel.Gen.C17Sql CogentMo
 /-- Which tables a query visits: only `user` when alignment features are asked for, else all. -/
 theorem tables_choice (oa : Option Bool) (names : List String) :
     featuresTables oa names = (if oa = some true then ["user"] else names) ∧
-    recordsTables oa names = (if oa = some true then ["user"] else names) := by
-  unfold featuresTables recordsTables
+    recordsTables oa names = (if oa = some true then ["user"] else names) ∧
+    countTables oa names = (if oa = some true then ["user"] else names) := by
+  unfold featuresTables recordsTables countTables
   rcases oa with _ | _ | _ <;> simp
 
 example : featuresTables (some true) ["gff", "user"] = ["user"] ∧ featuresTables (some false) ["gff", "user"] = ["gff", "user"] := by
   decide
+
+/-- **Per-table argument copying.**  In all three query methods the copy of the arguments made for the table
+called `n` still holds `on_alignment` exactly when `n` is the `user` table (the only one with such a column). -/
+theorem oa_kept_only_for_user (n : String) :
+    featuresKeepOa n = decide (n = "user") ∧ recordsKeepOa n = decide (n = "user") ∧ countKeepOa n = decide (n = "user") := by
+  unfold featuresKeepOa recordsKeepOa countKeepOa
+  by_cases h : n = "user" <;> simp [h]
+
+example : featuresKeepOa "user" = true ∧ recordsKeepOa "gff" = false ∧ countKeepOa "gb" = false := by decide
+
+/-- … so no gff / gb table is ever asked for a column it does not have -/
+theorem oa_never_reaches_main (oa : Option Bool) (names : List String) :
+    oaReachesMain featuresKeepOa oa names = false ∧ oaReachesMain recordsKeepOa oa names = false ∧
+    oaReachesMain countKeepOa oa names = false := by
+  have h : ∀ keep : String → Bool, (∀ n, keep n = decide (n = "user")) → oaReachesMain keep oa names = false := by
+    intro keep hk
+    unfold oaReachesMain
+    have : (names.any fun n => n != "user" && keep n) = false := by
+      rw [List.any_eq_false]
+      intro n _
+      rw [hk n]
+      by_cases h : n = "user" <;> simp [h]
+    rw [this, Bool.and_false]
+  exact ⟨h _ fun n => (oa_kept_only_for_user n).1, h _ fun n => (oa_kept_only_for_user n).2.1,
+    h _ fun n => (oa_kept_only_for_user n).2.2⟩
 
 /-- `subset()` hands its window bounds on unchanged — in particular a bound of 0 stays a bound. -/
 theorem subset_bounds_identity (x : Option Int) : subsetStart x = x ∧ subsetStop x = x := by
